@@ -76,6 +76,10 @@ def check(repo: Repo, rep: Report) -> None:
         a = s.node.args[0] if s.node.args else None
         if isinstance(a, ast.Call) and call_name(a) == "Timestamp":
             kw = {k.arg: k.value for k in a.keywords}
+            # Timestamp is a dataclass (value, timestamp): positional arguments bind in that order
+            for name_, pos_ in (("value", 0), ("timestamp", 1)):
+                if name_ not in kw and len(a.args) > pos_:
+                    kw[name_] = a.args[pos_]
             ts = kw.get("timestamp")
             ok = isinstance(ts, ast.BinOp) and isinstance(ts.op, ast.Add) and u(ts.left) == f"{note}.timestamp" and isinstance(ts.right, ast.Name) \
                 and ts.right.id in delays and u(kw.get("value")) == f"{note}.value"
